@@ -23,10 +23,17 @@ import (
 	"verif/engine/symex"
 )
 
-const (
-	repoDir = "/repo"
-	module  = "github.com/github/git-sizer"
-)
+const module = "github.com/github/git-sizer"
+
+// repoDir is /repo. VERIF_REPO_SCRATCH points development runs (seeded changes
+// applied to a scratch worktree) at another checkout; such runs never write
+// the property's evidence file. No registered command sets it.
+var repoDir = func() string {
+	if d := os.Getenv("VERIF_REPO_SCRATCH"); d != "" {
+		return d
+	}
+	return "/repo"
+}()
 
 // verifDir is /verif unless VERIF_DIR points at a snapshot of it (vp run).
 var verifDir = func() string {
@@ -492,6 +499,9 @@ func runProperty(id, tier string, seed int, reg Registry, only string, workers i
 	evName := id
 	if only != "" {
 		evName = id + ".partial" // a single-harness debugging run must not replace the property's evidence
+	}
+	if repoDir != "/repo" {
+		evName = id + ".scratch." + strconv.Itoa(os.Getpid()) + ".partial"
 	}
 	writeEvidence(evName, id, tier, seed, reports, inconclusive, violations, validated, time.Since(t0), loadDur)
 	for _, m := range inconclusive {
